@@ -37,6 +37,42 @@ instance (o : Except PyExc α) : Decidable (OKany o) := by
 theorem OK_any {pid : Nat} {o : Except PyExc α} (h : OK pid o) : OKany o := by
   unfold OK at h; unfold OKany; split <;> simp_all
 
+/-- **the class matches the cause** ("raises NoSuchProcess (gone), ZombieProcess (still listed, as a zombie) or
+    AccessDenied (permission refused)"): within the accesses `k0 ≤ k < k1` the call performed, NoSuchProcess only if
+    the process was gone at one of them, ZombieProcess only if it was a zombie at one of them, AccessDenied only if
+    one of them was refused. `ws` / `deny` are the plan of the process the object stands for. -/
+def Cause (ws : Nat → WS) (deny : Nat → Option Errno) (k0 k1 : Nat) : Except PyExc α → Prop
+  | .error (.nsp _) => ∃ k, k0 ≤ k ∧ k < k1 ∧ ws k = .gone
+  | .error (.zombie _) => ∃ k, k0 ≤ k ∧ k < k1 ∧ ws k = .zombie
+  | .error (.ad _) => ∃ k, k0 ≤ k ∧ k < k1 ∧ (deny k).isSome = true
+  | _ => True
+
+/-- the same, computably (what `decide` and the driver evaluate) -/
+def causeB (ws : Nat → WS) (deny : Nat → Option Errno) (k0 k1 : Nat) : Except PyExc α → Bool
+  | .error (.nsp _) => (List.range (k1 - k0)).any (fun i => ws (k0 + i) == .gone)
+  | .error (.zombie _) => (List.range (k1 - k0)).any (fun i => ws (k0 + i) == .zombie)
+  | .error (.ad _) => (List.range (k1 - k0)).any (fun i => (deny (k0 + i)).isSome)
+  | _ => true
+
+theorem causeB_iff (ws : Nat → WS) (deny : Nat → Option Errno) (k0 k1 : Nat) (o : Except PyExc α) :
+    causeB ws deny k0 k1 o = true ↔ Cause ws deny k0 k1 o := by
+  have key : ∀ (P : Nat → Bool), (List.range (k1 - k0)).any (fun i => P (k0 + i)) = true ↔
+      ∃ k, k0 ≤ k ∧ k < k1 ∧ P k = true := by
+    intro P
+    simp only [List.any_eq_true, List.mem_range]
+    constructor
+    · rintro ⟨i, hi, hp⟩; exact ⟨k0 + i, by omega, by omega, hp⟩
+    · rintro ⟨k, h0, h1, hp⟩; exact ⟨k - k0, by omega, by rw [show k0 + (k - k0) = k by omega]; exact hp⟩
+  unfold causeB Cause
+  split
+  · rw [key (fun k => ws k == .gone)]; simp
+  · rw [key (fun k => ws k == .zombie)]; simp
+  · rw [key (fun k => (deny k).isSome)]
+  · simp
+
+instance (ws : Nat → WS) (deny : Nat → Option Errno) (k0 k1 : Nat) (o : Except PyExc α) :
+    Decidable (Cause ws deny k0 k1 o) := decidable_of_iff _ (causeB_iff ws deny k0 k1 o)
+
 /-- "once the process is gone every later query raises NoSuchProcess" -/
 def IsNSP (pid : Nat) : Except PyExc α → Prop
   | .error (.nsp p) => p = pid
